@@ -414,6 +414,14 @@ def step (w : World) : Op → Except Err World
   | .mutAttr o name n => doMutAttr w o name n
   | .watch o p t cb => doWatch w o p t cb
 
+/-- a history: stops at the first operation outside the fragment -/
+def runOps : World → List Op → Except Err World
+  | w, [] => .ok w
+  | w, op :: rest =>
+    match step w op with
+    | .ok w1 => runOps w1 rest
+    | .error e => .error e
+
 /-! ### copy.deepcopy / pickle round trip -/
 
 def Obj.refs (ob : Obj) : List Nat :=
@@ -452,16 +460,19 @@ def renObj (no nc np : Nat) (ob : Obj) : Obj :=
             watchers := ob.watchers.map (fun kv => (kv.1, kv.2.map (renWatcher no np))),
             dyn := ob.dyn.map (fun kv => (kv.1, kv.2.map (renWatcher no np))) }
 
+/-- is the method caller re-created by `_m_caller(self, fn._watcher_name)`? -/
+def Policy.redo (pol : Policy) (owner self : Nat) : Bool :=
+  match pol with
+  | .always => true
+  | .own => owner == self
+  | .unbound => false
+
 /-- one iteration of the loop in `__setstate__`; `pid` is the next free caller id
     -- src: parameterized.py Parameterized.__setstate__ (`for watcher in watchers:`) -/
 def rebindWatcher (pol : Policy) (cls : ClassDef) (self : Nat) (wt : Watcher) (pid : Nat) : Except Err (Watcher × Nat) :=
   match wt.fn.kind with
   | .mcaller =>
-    let redo := match pol with
-      | .always => true
-      | .own => wt.fn.owner = self
-      | .unbound => false
-    if redo then
+    if pol.redo wt.fn.owner self then
       -- `_m_caller(self, fn._watcher_name)`: `getattr(self, method_name)`, what/changed/callback reset
       if cls.hasAttr wt.fn.method then
         .ok ({ wt with inst := self, fn := { kind := .mcaller, owner := self, method := wt.fn.method, changed := Option.none, pid := pid } }, pid + 1)
